@@ -524,7 +524,7 @@ def run(ctx):
 def gen_sys_cases(ctx):
     rng = ctx.rng
     cases = []
-    n_s, n_a = ctx.pick(2600, 40000), ctx.pick(1400, 20000)
+    n_s, n_a = ctx.pick(5200, 40000), ctx.pick(2800, 20000)
     if ctx.widened:
         n_s, n_a = n_s * 3, n_a * 3
     trs = ["tcp-lines", "doip", "hsfz", "unix-lines"]
@@ -589,6 +589,9 @@ def run_sys(ctx, nproc):
                      f"{c2['tr']} whole execution, max_retry={c2['mr']}: implementation and model differ",
                      {"case": c2, "model_line": CS.model_line(c2)}, impl=a2, model=b2, spec_violated=False,
                      site="UDSClient.request_unsafe / BaseTransport.reconnect")
+    ctx.exhaustive_parts.append(
+        "whole executions: backlog of N unconsumed frames, N in {0, 1, 63, 64, 65, 128, 200}, x {hsfz, doip, tcp-lines} x "
+        "{eof, reset} x read timeout {None, 0.5 s}, N + 2 transport reads each (84 lists); the other event lists are sampled")
     ctx.notes["sys_cases"] = len(cases)
     ctx.notes["sys_ties_skipped"] = ties
     ctx.notes["sys_spec_violation_classes"] = len(viol)
